@@ -7,6 +7,7 @@ package main
 import (
 	"fmt"
 	"go/types"
+	"strings"
 
 	"golang.org/x/tools/go/ssa"
 )
@@ -60,6 +61,57 @@ func (ex *Exec) registerStubs() {
 	}
 	I["verif:verifpadfile"] = pad
 	I["verif:vhpadfile"] = pad
+	// verifProtect(x): every object reachable from x becomes write-protected
+	// (a store to one is a violation) until verifUnprotect().
+	I["verif:verifprotect"] = func(ex *Exec, st *State, _ *ssa.CallCommon, a []Value) []Outcome {
+		set := map[int]bool{}
+		var walk func(v Value)
+		walk = func(v Value) {
+			switch x := v.(type) {
+			case Ptr:
+				if x.obj > 0 && !set[x.obj] {
+					set[x.obj] = true
+					walk(st.obj(x.obj).val)
+				}
+			case SliceV:
+				if x.obj > 0 && !set[x.obj] {
+					set[x.obj] = true
+					walk(st.obj(x.obj).val)
+				}
+			case MapV:
+				if x.obj > 0 && !set[x.obj] {
+					set[x.obj] = true
+					for _, e := range st.obj(x.obj).val.(*MapData).ents {
+						walk(e.k)
+						walk(e.v)
+					}
+				}
+			case IfaceV:
+				if x.typ != nil {
+					walk(x.val)
+				}
+			case *StructV:
+				for _, f := range x.f {
+					walk(f)
+				}
+			case *ArrayV:
+				for _, f := range x.e {
+					walk(f)
+				}
+			case FuncV:
+				for _, f := range x.env {
+					walk(f)
+				}
+			}
+		}
+		walk(a[0])
+		st.protected = set
+		return ret1(st, nil)
+	}
+	I["verif:verifunprotect"] = func(ex *Exec, st *State, _ *ssa.CallCommon, a []Value) []Outcome {
+		st.protected = nil
+		return ret1(st, nil)
+	}
 	fileT := func() types.Type {
 		return ex.prog.ImportedPackage("os").Type("File").Type()
 	}
@@ -149,10 +201,23 @@ func (ex *Exec) registerStubs() {
 // handles and goroutines).
 func (ex *Exec) installFrameCheck() {
 	ex.storeHook = func(st *State, obj int) {
-		if st.initMode || obj >= 0 {
+		if st.initMode {
+			return
+		}
+		if obj >= 0 {
+			if st.protected != nil && st.protected[obj] {
+				where := ""
+				if ex.cur != nil {
+					where = ex.pos(ex.cur)
+				}
+				ex.recordViolation(st, "foreignwrite", where, ex.cur.Parent().String(), "store to an object reachable from another handle")
+			}
 			return
 		}
 		o := st.obj(obj)
+		if strings.Contains(o.name, ".vh") || strings.Contains(o.name, "erif") {
+			return // harness-owned package variables
+		}
 		where := ""
 		if ex.cur != nil {
 			where = " at " + ex.pos(ex.cur)
